@@ -105,6 +105,32 @@ Theorem C14_clear_cancels : forall w r w',
 Proof. exact clear_cancels. Qed.
 Print Assumptions C14_clear_cancels.
 
+(* ---- the Parent back-link (a clause of Tree, so preserved by every event kind like the children / orphan clauses) ---- *)
+(* obj.Parent is the tracked object that has local id obj.ParentID in obj's region; it is None when ParentID is 0 or
+   no such object is tracked (the object is then an orphan, C14_orphaned) *)
+Theorem C14_parent_link : forall w f o, Idx w -> Tree w -> get_obj w f = Some o ->
+  o_plink o = if o_parent o =? 0 then None
+              else match get_rs w (o_region o) with Some rs => aget (o_parent o) (r_local rs) | None => None end.
+Proof. exact Tree_parent_link. Qed.
+Print Assumptions C14_parent_link.
+
+(* both directions with the children lists: Parent names exactly the object whose ChildIDs / Children hold this object *)
+Theorem C14_parent_children : forall w f o pf, Tree w -> get_obj w f = Some o ->
+  (o_plink o = Some pf <-> exists po, get_obj w pf = Some po /\ In (o_lid o, f) (o_children po)).
+Proof. exact Tree_parent_children. Qed.
+Print Assumptions C14_parent_children.
+
+(* hence after every history *)
+Theorem C14_history_parent_link_partial : forall h w' f o,
+  hist_ok input_tree_ok init h -> run init h = Some w' -> get_obj w' f = Some o ->
+  o_plink o = if o_parent o =? 0 then None
+              else match get_rs w' (o_region o) with Some rs => aget (o_parent o) (r_local rs) | None => None end.
+Proof.
+  intros h w' f o H R E. destruct (run_Inv h init w' (conj init_Idx init_Tree) H R) as [I T].
+  exact (Tree_parent_link w' f o I T E).
+Qed.
+Print Assumptions C14_history_parent_link_partial.
+
 (* ---- pending requests (futures): cancelled on kill / teardown, resolved on update, never reopened or lost ---- *)
 (* (SceneGraphFut.v)  fcan x y: y = x or x was pending and y is x cancelled;  fadv x y: same key and a done x stays x;
    cans / advs: position-wise over the request log;  futs_ext fs fs': fs' = a ++ new with advs fs a;
@@ -344,3 +370,10 @@ Proof.
   - apply (hist_full_okb_ok (fun r l => match l with 9 => 20%nat | _ => (20 - N.to_nat l)%nat end)). vm_compute. reflexivity.
   - eexists. split; vm_compute; reflexivity.
 Qed.
+
+(* the Parent references at the end of that history: object 3 points at the avatar (full id 4) it is a child of; the
+   avatar, whose parent (local id 2) was killed, points nowhere *)
+Example C14_ex_history_parent_links :
+  exists w o3 o4, run init ex_hist_tree = Some w /\ get_obj w 3 = Some o3 /\ o_parent o3 = 4 /\ o_plink o3 = Some 4 /\
+    get_obj w 4 = Some o4 /\ o_parent o4 = 2 /\ o_plink o4 = None.
+Proof. vm_compute. do 3 eexists. repeat split. Qed.
